@@ -143,7 +143,8 @@ def line_case(draw, tier='quick', max_lines=8):
 
     edits = draw(st.lists(st.sampled_from([
         'refill', 'refill', 'refill', 'refill_other_shape', 'fchar', 'pad',
-        'pad', 'swap', 'swap', 'insert_marked', 'insert_marked',
+        'pad', 'swap', 'swap', 'swap_plus_diff', 'insert_marked',
+        'insert_marked',
         'delete_plain', 'insert_plain', 'mark_both', 'substring_line',
         'substring_line', 'substring_actual_only', 'dup_line', 'rem_line',
         'long_line', 'blank_tail']), min_size=0, max_size=3))
@@ -194,6 +195,20 @@ def line_case(draw, tier='quick', max_lines=8):
                     opts['lstrip'] = True
                 if side in ('r', 'both', 'ref-r'):
                     opts['rstrip'] = True
+        elif e == 'swap_plus_diff' and len(act) >= 3:
+            # k lines rotated (excusable with max_permutation_cases >= k)
+            # plus one further line really changed, placed after them
+            k = draw(st.integers(2, min(3, len(act) - 1)))
+            idx = sorted(draw(st.lists(st.integers(0, len(act) - 2),
+                                       min_size=k, max_size=k, unique=True)))
+            vals = [act[i] for i in idx]
+            vals = vals[1:] + vals[:1]
+            for (i, v) in zip(idx, vals):
+                act[i] = v
+            j = draw(st.integers(idx[-1] + 1, len(act) - 1))
+            act[j] = act[j] + ' CHANGED'
+            opts['max_permutation_cases'] = draw(st.sampled_from([k, k,
+                                                                  k + 1]))
         elif e == 'swap' and len(act) >= 2:
             k = draw(st.integers(2, min(4, len(act))))
             idx = draw(st.lists(st.integers(0, len(act) - 1), min_size=k,
